@@ -7,4 +7,4 @@ CONSTANTS
 INIT Init
 NEXT Next
 VIEW View
-INVARIANTS ExactlyMatching OnlyViewShapes DefaultWhenNoMatch DevNarrow EmitSweep
+INVARIANTS ExactlyMatching OnlyViewShapes MeterIdentityExact DefaultWhenNoMatch DevNarrow EmitSweep
